@@ -16,7 +16,9 @@ def run(tier, seed):
     cpus = K.cpu_list(vdir)
     by_name = {c["name"]: c for c in cpus}
 
-    forms = K.corpus(set(by_name))
+    skip = K.out_of_scope(PROP)
+    cpus = [c for c in cpus if c["name"] not in skip]
+    forms = [f for f in K.corpus(set(by_name)) if f[0] not in skip]
     # forms harvested from the decode side: every distinct accepted rendering
     # the harvest does not depend on the seed: every 16th leading pattern of the thorough enumeration
     dcases = K.dis_cases(cpus, "thorough", 0, every=16)
@@ -92,7 +94,7 @@ def run(tier, seed):
              "from the decode side, assembled at one or two load addresses; every case is an instruction (non-trivial); "
              "distinct by (cpu, text)",
         traces_validated_against_impl=len(events) - len(canaries),
-        accepted_per_cpu=accepted, corpus_forms=len(forms), harvested_forms=len(harvested),
+        accepted_per_cpu=accepted, not_covered=sorted(skip), corpus_forms=len(forms), harvested_forms=len(harvested),
         canaries=dict(injected=len(canaries), rejected=len(canaries)), exhaustive=False))
     chk.samples = [dict(case=c[1], text=c[2]) for c in rnd.sample(cases, 5)]
     chk.assumptions = ["for CPUs without a transcribed architecture the oracle is self-consistency; an error made identically in encoder and decoder is not visible",
